@@ -52,6 +52,8 @@ def run(chk, program, tier):
     P, ID, Q, OTHER = ordinary[0].pgn, ordinary[0].id, ordinary[1].pgn, ordinary[1].id
     uni = [P, Q] + [x for b in (ID, OTHER) for x in (b, b.lower(), b.upper())]
     configs = [()] + [(a,) for a in uni] + list(itertools.combinations(uni, 2))
+    if tier == 'thorough':
+        configs += list(itertools.combinations(uni, 3))
     disagreements = {}
     nm = 0
     class _F:      # stand-in for the open file
